@@ -10,6 +10,7 @@
 -/
 import RaftVerif.Proofs.ElectionLemmas
 import RaftVerif.Proofs.Prevote
+import RaftVerif.Model.Lifecycle
 import RaftVerif.Proofs.ReplExample
 set_option linter.unusedSimpArgs false
 namespace Raft
@@ -26,6 +27,44 @@ theorem C16_sticky_refuses (n : Node) (now : Nat) (q : RVReq) (hs : n.role ≠ .
   have : (n.leaseValid now || n.contactFresh now) = true := by
     rcases h with h | h <;> simp [h]
   simp [this]
+
+/-- The guard of the timed model's `grant` step, read off the handler: whoever grants a vote or a
+    prevote has not heard from a leader within the election timeout (and holds no valid lease). -/
+theorem C16_grant_implies_no_contact {n n' : Node} {now : Nat} {q : RVReq} {r : RVResp} {eff : List Effect}
+    (h : requestVote n now q = some (n', r, eff)) (hg : r.granted = true) :
+    n.contactFresh now = false ∧ n.leaseValid now = false := by
+  by_cases hc : n.contactFresh now = true ∨ n.leaseValid now = true
+  · have hs : n.role ≠ .shutdown := by
+      intro hsd; unfold requestVote at h; simp [hsd] at h
+    rw [C16_sticky_refuses n now q hs hc] at h
+    simp only [Option.some.injEq, Prod.mk.injEq] at h
+    obtain ⟨_, h2, _⟩ := h
+    rw [← h2] at hg
+    simp at hg
+  · constructor
+    · cases hx : n.contactFresh now with
+      | false => rfl
+      | true => exact absurd (Or.inl hx) hc
+    · cases hx : n.leaseValid now with
+      | false => rfl
+      | true => exact absurd (Or.inr hx) hc
+
+/-- **A node that has just been started counts as in contact**: `Start`/`Restart` set the contact time
+    to now, so for one election timeout the node refuses every vote request and does not campaign
+    (a restarted voter must not help depose a leader whose request it acknowledged just before it
+    went down; the timed models of C16 and C17 rest on this: a crash may only shorten stickiness if
+    the restart does not restore it). -/
+theorem C16_started_node_is_in_contact (n : Node) (now : Nat) (rf st : Bool) (d : Node.Disk) (hs : n.role = .shutdown)
+    (het : 0 < (n.start now rf st d).et) :
+    (n.start now rf st d).lastContact = now ∧ (n.start now rf st d).contactFresh now = true := by
+  have h1 : (n.start now rf st d).lastContact = now := by
+    unfold Node.start
+    rw [if_neg (by rw [hs]; simp)]
+  refine ⟨h1, ?_⟩
+  unfold Node.contactFresh
+  rw [h1]
+  simp only [decide_eq_true_eq]
+  omega
 
 /-- **Only a won prevote raises the term.** One iteration of the election loop leaves the
     term unchanged unless the node is a candidate that has just won a prevote. -/
